@@ -628,6 +628,10 @@ def _worker(job):
         out["tb"] = res.tb[-1200:]
         out["error_line"] = next((l for l in res.stdout.split("\n") if l.startswith("Error:")), "")[:300]
         out["sched"] = extra(res)
+        import sys
+
+        if "serial_lib" in sys.modules:          # serialisation stage of ./check C12 (design.d/Serialise.md), when installed
+            out["serial"] = sys.modules["serial_lib"].extra(res)
         if res.status == "ok" and res.out_model is not None:
             ext, _m = pipeline.extents_from_output(res.out_model)
             out["extents"] = ext
